@@ -22,7 +22,7 @@ for line in s.split("\n"):
             def k(x):
                 return f"{x/1e6:.1f}M" if x >= 1e6 else (f"{x/1e3:.1f}k" if x >= 1e4 else str(x))
             cols[2] = str(n)
-            cols[3] = f"~{e.get('wall_s', 0):.0f} s, {k(cases)} cases ({k(mc)} model-evaluated)"
+            cols[3] = f"{e.get('tier', '?')}: ~{e.get('wall_s', 0):.0f} s, {k(cases)} cases ({k(mc)} model-evaluated)"
             line = " | ".join(cols)
     out.append(line)
 open(p, "w").write("\n".join(out))
